@@ -56,6 +56,9 @@ class Interp(ExprMixin):
         self.lc_taint = {}           # key -> dict
         self.tainted_loops = {}
         self.public_loops = {}
+        self.call_records = {}
+        self.div_sites = {}
+        self._cur = None
         self.calls = {}              # caller fq -> set of callee descriptors
         self.callsites = {}          # callee fq -> list of (caller fi, call node)
         self.global_taint = {}
@@ -202,6 +205,8 @@ class Interp(ExprMixin):
             self.tainted_loops.clear()
             self.calls.clear()
             self.callsites.clear()
+            self.call_records.clear()
+            self.div_sites.clear()
 
     def _globals_fingerprint(self):
         out = []
